@@ -47,6 +47,14 @@ func runSessions(r *Run, cases []*RCase, what func(c *RCase, i int, g, m string)
 				nontrivial = true
 			}
 			r.Dist["status:"+strings.SplitN(gs, "(", 2)[0]]++
+			if strings.Contains(c.GoRes[i], " ? ") {
+				// rendered through dyntpl.Render: the write count is unknown, compare the other fields
+				mf := strings.Fields(ms[i])
+				if len(mf) == 4 {
+					mf[2] = "?"
+					ms[i] = strings.Join(mf, " ")
+				}
+			}
 			if ms[i] != c.GoRes[i] {
 				w := what(c, i, c.GoRes[i], ms[i])
 				sig := fmt.Sprintf("render#%d go=[%s] model=[%s] tpl=%s", i, c.GoRes[i], ms[i], c.Tpls[len(c.Tpls)-1].Src)
@@ -56,6 +64,12 @@ func runSessions(r *Run, cases []*RCase, what func(c *RCase, i int, g, m string)
 					r.TieBreak("Impl.write ≙ dyntpl.write", c.Describe(), c.GoRes[i], ms[i])
 				}
 			}
+		}
+		for _, d := range c.ShapeDiffs {
+			r.Violate("ctx-shape "+d, "a reset context differs from a new one: "+d, c.Describe())
+		}
+		for _, d := range c.Mutated {
+			r.Violate("mutated-output "+d, d, c.Describe())
 		}
 		key := c.Req
 		r.Count(key, nontrivial)
